@@ -71,6 +71,9 @@ func DigestPE(r io.Reader, hash crypto.Hash, doPageHash bool) (*PEDigest, error)
 	if err != nil {
 		return nil, err
 	}
+	if doPageHash && hvals.sizeOfHdr > int64(hvals.pageSize) {
+		return nil, errors.New("PE headers are larger than one page, can't compute page hashes")
+	}
 	digester := setupDigester(hash, buf.Bytes(), hvals, sections, doPageHash)
 	// Hash gap between header and first section if it exists
 	nextSection := hvals.sizeOfHdr
